@@ -177,6 +177,14 @@ def normalise(prog):
             spec = [Par(*p) for p in prog['leaves'][c['to']]]
             c['npos'] = sum(1 for p in spec if p.kind in (PO, POK) and p.default is None)
             c['names'] = [p.name for p in spec if p.kind == KWO and p.default is None]
+    # a star whose taint already brings the hidden values in is not combined with them again
+    # (**k, **HK with k == HK can never bind; *p, *HA with p == HA only gives even counts)
+    ts = taint_state(prog)
+    for c in prog['calls']:
+        if ts['args'][1] in ('hidden', 'both') and c['sa'] == 'own+f':
+            c['sa'] = 'own'
+        if ts['kwargs'][1] in ('hidden', 'both') and c['sk'] == 'own+f':
+            c['sk'] = 'own'
     # taints naming a star the wrapper does not have are dropped
     has = {'args': any(p.kind == VP for p in outer), 'kwargs': any(p.kind == VK for p in outer)}
     prog['taints'] = [t for t in prog['taints'] if has[(TAINTS.get(t['name']) or HARMLESS[t['name']])[0]]]
